@@ -315,20 +315,29 @@ def trace_dump(base):
 
 def eval_fault(base, i, pre_existing, corrupt=None):
     """Dump with the i-th validator invocation failing (or with a really invalid nested value); report what happened to the path.
-    pre_existing: False (no file), True (previous good copy), "hardlinked" (previous good copy that has a second name)."""
+    pre_existing: False (no file), True (previous good copy), "hardlinked" (previous good copy that has a second name),
+    "own" (previous good copy written - twice - by the same object whose next dump fails)."""
     install_shims()
     tmp = tempfile.mkdtemp(prefix="c18-")
     try:
         path = os.path.join(tmp, "metadata.out")
         before = None
+        obj = None
         if pre_existing:
-            _do_dump(base, get_base(base)[0](), path)
+            first = get_base(base)[0]()
+            _do_dump(base, first, path)
             with open(path, "rb") as f:
                 before = f.read()
             if pre_existing == "hardlinked":
                 os.link(path, os.path.join(tmp, "second-name"))
                 ino = os.stat(path).st_ino
-        obj = get_base(base)[0]()
+            if pre_existing == "own":
+                # the good copy was written by the very object whose next dump fails (it may remember the path, keep the
+                # text, a handle or a backup name from its first dump)
+                _do_dump(base, first, path)
+                obj = first
+        if obj is None:
+            obj = get_base(base)[0]()
         if corrupt:
             try:
                 REAL_BY_NAME[corrupt][1](obj)
@@ -418,7 +427,7 @@ def run_unit(unit, acc):
         else:
             acc.extra.setdefault("injection_points", {})[base] = len(log)
         for i in range(1, len(log) + 1):
-            for pre in (False, True, "hardlinked"):
+            for pre in (False, True, "hardlinked", "own"):
                 o = eval_fault(base, i, pre)
                 acc.ev()
                 case = {"kind": "fault", "base": base, "i": i, "pre_existing": pre}
@@ -441,7 +450,7 @@ def run_unit(unit, acc):
     else:
         name = unit[1]
         base = REAL_BY_NAME[name][0]
-        for pre in (False, True, "hardlinked"):
+        for pre in (False, True, "hardlinked", "own"):
             o = eval_fault(base, None, pre, corrupt=name)
             acc.ev()
             case = {"kind": "real", "name": name, "pre_existing": pre}
